@@ -52,4 +52,21 @@ REGISTRY: dict[str, dict] = {
              "logical types x 3 physical types x {flat,grouped} x strict{T,F}; name table 7, tables 4097 / 2^32-1, "
              "version 3 on read. Non-trivial = a configuration the writer accepts, or a gate/pair case.",
     ),
+    "C04": dict(
+        modules=["C04"],
+        theorems=[T + "C04_decoder_refines_spec"],
+        rule="PARSE: streams from the harness's independent reference encoder making arbitrary legal choices (random "
+             "eviction victim, random IRI split point, explicit vs zero ids, early/redundant entries, repeats used or not, "
+             "random frame cuts, empty frames, repeated options rows, metadata; physical types 1-3, versions 1-2, tables "
+             "8..4096 / 0..4096), each first accepted by the Lean referee with the intended denotation; real flat/grouped/"
+             "to_graph parsers vs that denotation; model parser vs real parser. Non-trivial = stream with ≥2 events.",
+    ),
+    "C16": dict(
+        modules=["C04"],
+        theorems=[T + "C16_rejects_at_offending_row", T + "C16_bad_header_rejected"],
+        rule="PARSE: valid reference-encoder streams with ONE injected violation per catalogued class at a random site "
+             "(18 classes), confirmed invalid by the Lean referee (with the class it reports); real parse_jelly_flat must "
+             "raise and what it yielded before must be the referee's denotation of the valid prefix. Non-trivial = every "
+             "injected stream the referee rejects.",
+    ),
 }
